@@ -92,7 +92,7 @@ def labels(draw, n, kmin=2, kmax=4):
 def weight_matrix(draw, n, allow_zero=True, mode=None):
     """symmetric n x n, zero diagonal; heavy ties (1..4 levels) or tie-free"""
     npairs = n * (n - 1) // 2
-    mode = mode or draw(st.sampled_from(["lv1", "lv2", "lv2", "lv3", "lv3", "lv4", "tiefree", "tiefree", "float"]))
+    mode = mode or draw(st.sampled_from(["lv1", "lv2", "lv2", "lv3", "lv3", "lv4", "tiefree", "tiefree", "float", "neartie"]))
     if mode.startswith("lv"):
         m = int(mode[2:])
         pool = [0.0, 0.5, 1.0, 2.0, 3.0, 5.0, 8.0] if allow_zero else [0.5, 1.0, 2.0, 3.0, 5.0, 8.0]
@@ -102,6 +102,13 @@ def weight_matrix(draw, n, allow_zero=True, mode=None):
     elif mode == "tiefree":
         perm = draw(st.permutations(list(range(npairs))))
         vals = [float(p + 1) for p in perm]
+    elif mode == "neartie":
+        # all distinct, but within a relative 1e-7..1e-5 of one of two base levels: exposes "approximately equal" comparisons
+        perm = draw(st.permutations(list(range(npairs))))
+        step = draw(st.sampled_from([1e-7, 1e-6, 3e-6]))
+        bases = draw(st.lists(st.sampled_from([0.5, 1.0, 3.0, 1000.0]), min_size=1, max_size=2, unique=True))
+        pick = draw(st.lists(st.integers(0, len(bases) - 1), min_size=npairs, max_size=npairs))
+        vals = [bases[b] * (1.0 + (p + 1) * step) for p, b in zip(perm, pick)]
     else:
         # sub-normal weights (1/d overflows) are outside any realistic distance domain: 0 or [1e-6, 1e6]
         fl = st.floats(1e-6, 1e6, allow_nan=False)
